@@ -39,6 +39,8 @@ class World(object):
             return frozenset([bool(e.get("v"))])
         if k == "IntegerLiteral" and e.get("v") is not None:
             return frozenset([e["v"]])
+        if k == "CXXDefaultArgExpr" and e.get("v") is not None:
+            return frozenset([e["v"]])
         if k in ("CXXNullPtrLiteralExpr", "GNUNullExpr"):
             return frozenset([None])
         if k == "DeclRefExpr" and e.get("v") is not None:          # enumerator
@@ -107,6 +109,77 @@ class World(object):
 
     def returns(self):
         return self.blocks()[1]
+
+    def run_env(self, track):
+        """Path-sensitive exploration that also follows the values of the local variables in `track` (decl ids) through
+        their initialisers and plain assignments.  Returns the set of returned values.  A range-for statement is offered
+        to atom() as a node: answering [False] means its range is empty in this world."""
+        f = self.f
+        cfg = f.cfg()
+        outer = self.atom
+        env_box = [{}]
+
+        def atom(e):
+            a = outer(e)
+            if a is not None:
+                return a
+            if e["k"] == "DeclRefExpr" and e.get("d") in track and e.get("d") in env_box[0]:
+                return env_box[0][e["d"]]
+            return None
+        self.atom = atom
+        rets = set()
+        try:
+            seen = set()
+            stack = [(cfg.entry, ())]
+            steps = 0
+            while stack:
+                b, envt = stack.pop()
+                if (b, envt) in seen or b not in cfg.blocks:
+                    continue
+                seen.add((b, envt))
+                steps += 1
+                if steps > 20000:
+                    rets.add(ANY)
+                    break
+                env = dict(envt)
+                env_box[0] = env
+                blk = cfg.blocks[b]
+                done = False
+                for e in blk.elems:
+                    if e["k"] == "VarDecl" and e.get("d") in track:
+                        env[e["d"]] = self.ev(e["c"][0]) if e.get("c") and e["c"][0] is not None else UNK
+                    elif e["k"] in ("BinaryOperator", "CXXOperatorCallExpr") and e.get("op") == "=":
+                        a = call_args(e) if e["k"] == "CXXOperatorCallExpr" else e["c"]
+                        l = strip_casts(a[0])
+                        if l is not None and l["k"] == "DeclRefExpr" and l.get("d") in track:
+                            env[l["d"]] = self.ev(a[1])
+                    elif e["k"] == "CompoundAssignOperator" or (e["k"] == "UnaryOperator" and e.get("op") in ("++", "--")):
+                        for y in e.get("c", [])[:1]:
+                            y = strip_casts(y)
+                            if y is not None and y["k"] == "DeclRefExpr" and y.get("d") in track:
+                                env[y["d"]] = UNK
+                    elif e["k"] == "ReturnStmt":
+                        rets |= set(self.ev(e["c"][0])) if e.get("c") and e["c"][0] is not None else {None}
+                        done = True
+                        break
+                if done:
+                    continue
+                succs = [s for s in blk.succs if s is not None]
+                if blk.term is not None and blk.term["k"] == "CXXForRangeStmt" and len(blk.succs) == 2:
+                    a = outer(blk.term)
+                    if a is not None and list(a) == [False]:
+                        succs = [blk.succs[1]]
+                elif cfg.branch(b) is not None:
+                    for c in cfg.branch_conds(b):
+                        v = truth(self.ev(c))
+                        if len(v) == 1:
+                            succs = [blk.succs[0 if next(iter(v)) else 1]]
+                            break
+                envt2 = tuple(sorted(env.items(), key=lambda kv: kv[0]))
+                stack.extend((s, envt2) for s in succs if s is not None)
+        finally:
+            self.atom = outer
+        return rets
 
     def elems(self):
         cfg = self.f.cfg()
